@@ -596,7 +596,7 @@ func resetV1(cfg Config, n int, fault bool) map[string]any {
 		share = append(share, [2]int{int(p), 0})
 	}
 	return map[string]any{"e": "Reset", "path": n, "H": cfg.H, "prios": cfg.Prios, "chans": chans, "chprio": chprio, "live": live,
-		"share": share, "sat": false, "fault": fault, "v1": true, "cont": "v1", "p": 0, "k": 0, "c": 0, "cfg": cfg.Name}
+		"share": share, "sat": false, "fault": fault, "v1": true, "unordered": false, "cont": "v1", "p": 0, "k": 0, "c": 0, "cfg": cfg.Name}
 }
 
 // runV1 executes one seeded gated schedule against the real v1 discipline and returns the recorded trace.
